@@ -9,7 +9,7 @@ import operator
 
 import numpy as np
 
-EW_OPS = [("add", operator.add), ("sub", operator.sub), ("mul", operator.mul), ("truediv", operator.truediv), ("lt", operator.lt), ("maximum", np.maximum)]
+EW_OPS = [("add", operator.add), ("sub", operator.sub), ("mul", operator.mul), ("truediv", operator.truediv), ("lt", operator.lt), ("maximum", np.maximum), ("sub-where", None)]
 
 
 def _Norm(x, ax):
@@ -105,7 +105,16 @@ def run_case(cs, seed):
         got, exc = None, None
         try:
             with np.errstate(all="ignore"):
-                if op == "ew":
+                if op == "ew" and vname == "sub-where":
+                    # masked ufunc: the mask is a scalar field on the operation's (Ne, nPg); entries outside the mask keep `out`
+                    ne_, npg_ = lead_of(a, b)
+                    mask_plain = (np.arange(ne_ * npg_).reshape(ne_, npg_) % 2) == 0
+                    if res["err"]:
+                        got = np.subtract(A_fe, B_fe, where=FeArray.asfearray(mask_plain))
+                    else:
+                        outb = FeArray.asfearray(np.full(tuple(res["shape"]), -7.0))
+                        got = np.subtract(A_fe, B_fe, where=FeArray.asfearray(mask_plain), out=outb)
+                elif op == "ew":
                     got = fn(A_fe, B_fe)
                 elif op == "matmul":
                     got = A_fe @ B_fe
@@ -145,7 +154,12 @@ def run_case(cs, seed):
         if tuple(np.shape(got)) != tuple(res["shape"]) or is_fe != res["fe"]:
             out.append((f"descriptor/{key}", f"{desc} returns {'fe' if is_fe else 'plain'}{list(np.shape(got))}, the rules give {'fe' if res['fe'] else 'plain'}{res['shape']}"))
             continue
-        exp = expected_values(op, fn, a, b if op != "broadcast" else b, A, B, arg)
+        if vname == "sub-where":
+            full = expected_values(op, operator.sub, a, b, A, B, arg)
+            mk_ = mask_plain.reshape(mask_plain.shape + (1,) * (full.ndim - 2))
+            exp = np.where(mk_, full, -7.0)
+        else:
+            exp = expected_values(op, fn, a, b if op != "broadcast" else b, A, B, arg)
         g = np.asarray(got, dtype=float)
         if g.shape != np.shape(exp) or not np.allclose(g, exp, rtol=1e-11, atol=1e-12, equal_nan=True):
             out.append((f"values/{key}", f"{desc} does not equal the operation carried out at each (e, p) independently (max diff {np.abs(g - exp).max() if g.shape == np.shape(exp) else 'shape'})"))
